@@ -740,8 +740,11 @@ class FsFaults:
 
         def safe_file_dump(obj, filename, *a, **k):
             if ff.obs.ns is not None and obj is ff.obs.ns:
-                ff.em.emit("ckpt_begin", digest=ff.obs.deep_digest(obj), flow_w=flow_digest(obj),
-                           live=ff.obs.live_state(obj), **ff.obs.tails(obj), **ff.obs.counts(obj))
+                if hasattr(obj, "training_samples"):      # importance sampler
+                    ff.em.emit("ckpt_begin", digest=ff.obs.deep_digest(obj), **ff.obs.counts(obj))
+                else:
+                    ff.em.emit("ckpt_begin", digest=ff.obs.deep_digest(obj), flow_w=flow_digest(obj),
+                               live=ff.obs.live_state(obj), **ff.obs.tails(obj), **ff.obs.counts(obj))
                 ff.begin("ckpt")
                 try:
                     return inner_dump(obj, filename, *a, **k)
